@@ -1,6 +1,7 @@
 import Sif.Proofs.C12
 import Sif.Proofs.C12Sym
 import Sif.Generated.Perms
+import Sif.Generated.Lookup
 set_option linter.unusedSimpArgs false
 /-
   C12 — Token-registry permissions gate every AMM operation and IBC export.
@@ -56,6 +57,44 @@ theorem generated_eq_table (k : Kind) : generated k = table k := by
 /-- every handler reads the registry of the current message's context; Transfer (only) delegates -/
 theorem generated_reads_current_registry (k : Kind) : (generated k).readsRegistryFromCtx = true := by
   rw [generated_eq_table]; cases k <;> rfl
+
+/-! ### the lookup helper every guard goes through -/
+
+/-- the CURRENT source of `GetEntry` compares `.Denom` only (no other entry field is looked at), has a
+    single successful return — the element whose denom equals the requested one — and otherwise
+    returns an error -/
+theorem facts_lookup : Sif.Generated.Lookup.getEntry = lookupExpected := by decide
+
+/-- the lookup never returns an entry registered under another denom (whatever its base denom,
+    unit denom, counterparty denom or display names are: the model's entries do not even carry them) -/
+theorem lookup_exact_denom (reg : Registry) (d : String) (e : Entry) (h : getEntry reg d = some e) :
+    e.denom = d ∧ e ∈ reg := ⟨getEntry_denom h, getEntry_mem h⟩
+
+/-- the decision is a function of the entries found under EXACTLY the denoms the message names -/
+theorem allowed_depends_on_exact_entries (reg reg' : Registry) (k : Kind) (m : Msg)
+    (h : ∀ d, d = m.native ∨ d = m.ext ∨ d = m.sent ∨ d = m.received ∨ d = m.token →
+      getEntry reg d = getEntry reg' d) :
+    allowed reg k m = allowed reg' k m := by
+  have hn := h m.native (Or.inl rfl)
+  have he := h m.ext (Or.inr (Or.inl rfl))
+  have hs := h m.sent (Or.inr (Or.inr (Or.inl rfl)))
+  have hr := h m.received (Or.inr (Or.inr (Or.inr (Or.inl rfl))))
+  have ht := h m.token (Or.inr (Or.inr (Or.inr (Or.inr rfl))))
+  cases k <;> simp only [allowed, hasP, lacksP, registered, notAlias, swapDirOK, hn, he, hs, hr, ht]
+
+/-- a denom under which NO entry is registered (it may well be some entry's base denom, unit denom
+    or display name) cannot be pooled, added to, removed from, swapped in either direction or
+    exported -/
+theorem no_exact_entry_refused (reg : Registry) (d : String) (m : Msg) (hno : ∀ e ∈ reg, e.denom ≠ d) :
+    (m.ext = d → allowed reg .createPool m = false ∧ allowed reg .addLiquidity m = false ∧
+                 allowed reg .removeLiquidity m = false ∧ allowed reg .removeLiquidityUnits m = false) ∧
+    (m.sent = d ∨ m.received = d → allowed reg .swap m = false) ∧
+    (m.token = d → allowed reg .transfer m = false) := by
+  have hn := getEntry_none_of_no_denom hno
+  refine ⟨?_, ?_, ?_⟩
+  · intro h; subst h; simp [allowed, hasP, hn]
+  · intro h; rcases h with h | h <;> subst h <;> simp [allowed, hasP, hn]
+  · intro h; subst h; simp [allowed, registered, hn]
 
 /-! ### the table decides exactly the property's condition -/
 
@@ -254,6 +293,8 @@ example : allowed (applyEdit exReg (.deregister "cusdc")) .createPool exMsg = fa
 /-- a rolled-back [Deregister cusdc, failing message] leaves cusdc usable; a committed one does not -/
 example : deliverTx exReg [.edit (.deregister "cusdc"), .msg (table .swap).guards exMsg true] false = exReg := by decide
 example : allowed (deliverTx exReg [.edit (.deregister "cusdc")] false) .createPool exMsg = false := by decide
+/-- "xeth" names "ceth" as its unit denom; nothing is registered under "weth": refused -/
+example : allowed exReg .createPool { exMsg with ext := "weth" } = false := by decide
 example : swapStatusOf 1000 1000 10 5 = .sellNative := by decide
 example : swapStatusOf 1000 1000 5 10 = .buyNative := by decide
 
